@@ -25,9 +25,34 @@ def _one(ctx, sc, entry, stats, sample=False):
         ctx.sample({"scenario": {"cfg": sc["cfg"], "call0": sc["calls"][0]}, **common.describe(recs[0], 30)})
 
 
+def abort_from_the_sleeper(ctx, sc, entry):
+    """'No abort is requested' has a second spelling besides abort_if: an interruptible sleeper (or a sleep handler) that raises
+    AbortRetryError during the backoff.  Once that has happened the operation is not invoked again and nothing further is slept."""
+    recs, h, w = rig.run(sc, entry)
+    ctx.inc("runs")
+    ctx.inc("calls", len(recs))
+    for rec in recs:
+        tr = rec.trace
+        for i, ev in enumerate(tr):
+            if ev[0] == "fault" and ev[2] == "AbortRetryError":
+                ctx.inc("aborts_requested_from_inside_the_backoff")
+                after = [z for z in tr[i + 1:] if z[0] in ("op", "sleep", "dsleep", "budget", "strategy")]
+                if after:
+                    ctx.viol("work-after-abort-requested-by-a-backoff-callback", f"[{entry} call#{rec.idx}] {ev[1]} raised AbortRetryError; afterwards: {after[:3]}", common.payload(sc, entry, rec.idx))
+                break
+
+
 def work(ctx, tier):
     stats = {}
     rng = common.rng_for(ctx, "main")
+    for k in range((400 if tier == "quick" else 8000) // ctx.nshards):
+        sc = gen.rand_scenario(rng, max_attempts=(2, 5), p_special=0.0, p_budget=0.3, p_handler=0.5, p_abort=0.0, ncalls=(1, 2), placements=(k % 2 == 0))
+        sc["fault"] = {"kind": "cb", "cb": rng.choice(["sleeper", "sleeper", "handler"]), "at": rng.choice([0, 0, 1]), "exc": "AbortRetryError"}
+        if sc["place"].get("sleeper") == "none":
+            sc["place"]["sleeper"] = "call"
+        for e in common.pick_entries(rng, rig.ENTRIES, 3):
+            abort_from_the_sleeper(ctx, sc, e)
+        ctx.inc("abort_from_backoff_scenarios")
     max_len = 3 if tier == "quick" else 4
     for i, sc in enumerate(gen.sweep_scenarios(max_len=max_len)):
         if i % ctx.nshards != ctx.shard:
@@ -102,7 +127,8 @@ def work(ctx, tier):
 
 
 def conclude(ctx):
-    floors = {}
+    floors = {
+        "aborts_requested_from_inside_the_backoff": (ctx.cnt["aborts_requested_from_inside_the_backoff"], 100),}
     for c in CONJUNCTS_FALSE:
         floors[f"only-false:{c}"] = (ctx.cnt.get(f"static_false:{c}", 0), 30)
     for d in DYNAMIC:
@@ -131,4 +157,6 @@ def conclude(ctx):
 def replay(data):
     if "tspec" in data["payload"]:
         return tconc.replay(data["payload"])
+    if data.get("key") == "work-after-abort-requested-by-a-backoff-callback":
+        return common.replay_with(data, abort_from_the_sleeper)
     return common.replay_trace(data, [O.o_permit])
